@@ -134,7 +134,8 @@ int main(int argc, char **argv)
 			r0.what = "failure-free conversation: " + std::to_string(r0.leaked) + " block(s) of the configured allocator still allocated after the tables were freed, " + std::to_string(r0.foreign_free) + " unknown block(s) passed to its free";
 			return r0;
 		}
-		long N = r0.allocs, stride = N > 1500 ? N / 1500 + 1 : 1;
+		long maxk = args.num("maxk", 1500);
+		long N = r0.allocs, stride = N > maxk ? N / maxk + 1 : 1;
 		r0.cls["conversations-enumerated-for-allocation-failures"]++;
 		for (long k = 1; k <= N; k += stride) {
 			if (stp) stp->current_case(to_text(sc) + "# failing allocation k=" + std::to_string(k) + " of " + std::to_string(N) + "\n");
